@@ -425,6 +425,10 @@ def run(prog, ctx):
                 tys = [g_.local_ty(1)]
             if any(t.startswith("&mut") and "PairTable" in t for t in tys) or (cal.rsplit("::", 1)[-1].startswith("mut_") and "table" in cal):
                 tab_calls.add(b)
+            elif g_ is not None and g_.id != mw.id and any(t.startswith("&mut") for t in tys):
+                # a helper that takes the sketch mutably and reaches a routine working on the table
+                if any(h_.argc >= 1 and h_.local_ty(1).startswith("&mut") and "PairTable" in h_.local_ty(1) for h_ in C.reach_from(prog, [g_.id])):
+                    tab_calls.add(b)
         stores = [bb for (ff, bb, kind, place, rv, span, adt, fld) in sym.field_stores(prog, adt=S, field="window_offset", fns=[mw]) if kind == "assign"]
         for bb in stores:
             n_m += 1
